@@ -47,6 +47,16 @@ Bad(c) ==
               ELSE IF \E i \in 2..(n + 1) : c.ords[i][3] # (d < 0) \/ c.ords[i][5] # c.v \/ c.ords[i][2] # c.comps[i - 1] THEN "arb-component-legs"
               ELSE IF \E i \in 1..(n + 1) : c.ords[i][6] # c.ttl THEN "arb-lifetime"
               ELSE IF ~c.pok THEN "arb-prices" ELSE ""
+    [] c.c = "arb2" ->
+         \* several index markets: the baskets of the indices one after the other; idxs[i] = <<index market, index price, index value, components>>
+         LET Basket(x) == LET d == ArbDirection(x[2], x[3], c.thr, TRUE)  n == Len(x[4]) IN
+                          IF d = 0 THEN <<>>
+                          ELSE <<<<x[1], d > 0, n * c.v>>>> \o [k \in 1..n |-> <<x[4][k], d < 0, c.v>>]
+             want == FoldLeft(LAMBDA acc, x : acc \o Basket(x), <<>>, c.idxs)
+             got == [k \in 1..Len(c.ords) |-> <<c.ords[k][2], c.ords[k][3], c.ords[k][5]>>] IN
+         IF got # want THEN "arb-baskets-of-several-indices"
+         ELSE IF \E k \in 1..Len(c.ords) : c.ords[k][6] # c.ttl THEN "arb-lifetime"
+         ELSE IF ~c.pok THEN "arb-prices" ELSE ""
     [] c.c = "share" ->
          IF \E i, j \in 1..Len(c.ords) : c.ords[i][2] # c.ords[j][2] THEN "share-more-than-one-market"
          ELSE IF Len(c.ords) > 1 THEN "share-order-count" ELSE ""
